@@ -805,6 +805,31 @@ func constructionsGuarded(c *Ctx, kind string) bool {
 						}
 						return true
 					})
+					// the capability test may be wrapped in a package-local predicate (d.renamePKSupported())
+					ast.Inspect(cond, func(k ast.Node) bool {
+						call, isCall := k.(*ast.CallExpr)
+						if !isCall {
+							return true
+						}
+						hf := calleeOf(info, call)
+						if hf == nil || hf.Pkg() == nil || hf.Pkg().Path() != pSqlx || hf.Name() == "SupportChange" {
+							return true
+						}
+						if cf := c.FuncInfoOf(hf); cf != nil && cf.Decl.Body != nil {
+							hinfo := cf.Info()
+							ast.Inspect(cf.Decl.Body, func(j ast.Node) bool {
+								hc, isHC := j.(*ast.CallExpr)
+								if !isHC || len(hc.Args) != 1 {
+									return true
+								}
+								if fn := calleeOf(hinfo, hc); fn != nil && fn.Name() == "SupportChange" && typeIs(hinfo.TypeOf(hc.Args[0]), pSchema, kind) {
+									guarded = true
+								}
+								return true
+							})
+						}
+						return true
+					})
 				}
 			}
 			if !guarded {
